@@ -29,7 +29,28 @@ def chain3(kinds=('json', 'json', 'json'), run='registry'):
             'v1': [[['configs', 'root', 'values', 'pa'], 2]],
             'v2': [[['configs', 'root', 'values', 'pc'], 'y']],
             'v3': [[['configs', 'root', 'values', 'pb'], 8]],
+            'vnull': [[['configs', 'root', 'values', 'pb'], None]],   # explicit null overrides the default 7
         },
+    }
+
+
+def longval():
+    """a parameter value whose representation is long (400 ids); variants differ in ONE element in the middle / at the ends"""
+    ids = list(range(1000, 1400))
+    mid = list(ids)
+    mid[200] = 9999
+    head = list(ids)
+    head[0] = 9999
+    return {
+        'name': 'longval',
+        'tasks': {
+            'A': {'params': [P('ids')], 'inputs': [], 'data': 'json'},
+            'B': {'params': [P('text', default='t')], 'inputs': [by_class('A')], 'data': 'json'},
+        },
+        'configs': {'root': {'medium': 'json', 'tasks': ['A', 'B'], 'values': {'ids': ids}}},
+        'root': 'root',
+        'variants': {'v0': [], 'vmid': [[['configs', 'root', 'values', 'ids'], mid]], 'vhead': [[['configs', 'root', 'values', 'ids'], head]],
+                     'vtext': [[['configs', 'root', 'values', 'text'], 'x' * 600 + 'M' + 'x' * 600]], 'vtext2': [[['configs', 'root', 'values', 'text'], 'x' * 600 + 'N' + 'x' * 600]]},
     }
 
 
@@ -255,4 +276,4 @@ def namemode():
     }
 
 
-ALL = {f.__name__: f for f in (namemode, parts_ext, optns, chain3, diamond, mount2, mount2p, uses2, parts, optpat, ctxmove, types_line)}
+ALL = {f.__name__: f for f in (namemode, parts_ext, optns, longval, chain3, diamond, mount2, mount2p, uses2, parts, optpat, ctxmove, types_line)}
